@@ -19,50 +19,55 @@ func VerifReq_Budget() {
 	verifrt.SetNativeQuiesceMs(200)
 	k := 1 + verifrt.Choose("blocks", verifrt.Param("KMAX", 3))
 	g := verifrt.U64("global-budget")
-	r := verifrt.U64("request-budget")
-	verifrt.Assume(g < 1<<62 && r < 1<<62)
+	verifrt.Assume(g < 1<<62)
 	local := make([]bool, k)
 	localAll := verifrt.Choose("all-local", 2) == 1
 	for i := range local {
 		local[i] = localAll
 	}
 	e := NewEnv(kit.Chain(k), local, 1, g)
-	e.MaxLinksPerReq = r
 	pA := peer.ID("peerA")
-	rq := e.Start(pA, 0)
-	kit.Drain()
-	if news := e.RequestsTo(pA, rq.ID, graphsync.RequestTypeNew); len(news) > 0 {
-		skip, _ := SkipOf(news[0])
-		items, st := RefResponder(e.Store.D, func(int) bool { return true }, skip)
-		e.Deliver(pA, rq.ID, items, st)
+	// two requests one after the other, each with its own per-request budget
+	nreq := verifrt.Param("REQS", 2)
+	for q := 0; q < nreq; q++ {
+		r := verifrt.U64("request-budget")
+		verifrt.Assume(r < 1<<62)
+		e.MaxLinksPerReq = r
+		rq := e.Start(pA, q)
 		kit.Drain()
-	}
-	loaded := uint64(0)
-	for _, d := range rq.Progress {
-		if d.IsRoot {
-			loaded++
+		if news := e.RequestsTo(pA, rq.ID, graphsync.RequestTypeNew); len(news) > 0 {
+			skip, _ := SkipOf(news[0])
+			items, st := RefResponder(e.Store.D, func(int) bool { return true }, skip)
+			e.Deliver(pA, rq.ID, items, st)
+			kit.Drain()
 		}
-	}
-	exceeded := false
-	for _, err := range rq.Errors {
-		var be *traversal.ErrBudgetExceeded
-		if errors.As(err, &be) {
-			exceeded = true
+		loaded := uint64(0)
+		for _, d := range rq.Progress {
+			if d.IsRoot {
+				loaded++
+			}
 		}
-	}
-	verifrt.Eventf("k=%d loaded=%d errors=%d exceeded=%v done=%v/%v", k, loaded, len(rq.Errors), exceeded, rq.ProgDone, rq.ErrDone)
-	n := g
-	if g == 0 || (r != 0 && r < g) {
-		n = r
-	}
-	verifrt.Assert(rq.ProgDone && rq.ErrDone, "C04 result channels not closed")
-	if n == 0 || uint64(k) <= n {
-		verifrt.Cover("within-budget")
-		verifrt.Assert(loaded == uint64(k) && len(rq.Errors) == 0, "C07 a traversal needing at most N blocks failed or stopped early under the effective budget N")
-	} else {
-		verifrt.Cover("over-budget")
-		verifrt.Assert(loaded == n, "C07 an over-budget traversal did not load exactly N blocks (N = smaller non-zero of the global and per-request budgets)")
-		verifrt.Assert(exceeded, "C07 an over-budget request did not end with a budget-exceeded error")
+		exceeded := false
+		for _, err := range rq.Errors {
+			var be *traversal.ErrBudgetExceeded
+			if errors.As(err, &be) {
+				exceeded = true
+			}
+		}
+		verifrt.Eventf("req%d k=%d loaded=%d errors=%d exceeded=%v done=%v/%v", q, k, loaded, len(rq.Errors), exceeded, rq.ProgDone, rq.ErrDone)
+		n := g
+		if g == 0 || (r != 0 && r < g) {
+			n = r
+		}
+		verifrt.Assert(rq.ProgDone && rq.ErrDone, "C04 result channels not closed")
+		if n == 0 || uint64(k) <= n {
+			verifrt.Cover("within-budget")
+			verifrt.Assert(loaded == uint64(k) && len(rq.Errors) == 0, "C07 a traversal needing at most N blocks failed or stopped early under the effective budget N")
+		} else {
+			verifrt.Cover("over-budget")
+			verifrt.Assert(loaded == n, "C07 an over-budget traversal did not load exactly N blocks (N = smaller non-zero of the global and per-request budgets)")
+			verifrt.Assert(exceeded, "C07 an over-budget request did not end with a budget-exceeded error")
+		}
 	}
 	verifrt.Reached("end-budget")
 }
